@@ -51,6 +51,8 @@ Canon(t) ==
                     ELSE IF t.a[n].k = "tuple" THEN [ j \in 1..Len(t.a[n].a) |-> Canon(t.a[n].a[j]) ]
                     ELSE << C(n) >>)) }
        [] k = "Gen" -> { Atom("Named", "GenCls", << C(1) >>) }
+       [] k = "Alias" -> C(1)                                  \* a module-level alias `Name = <annotation>` used as the annotation: means what it abbreviates
+       [] k = "VarTuple" -> { Atom("Tuple", "", << C(1) >>) }   \* tuple[X, ...]: a tuple type (the stub language has no variadic form)
 
 (* Meaning of a type term parsed from a stub: [k, n, a, q, l].  Names are Python names (the harness undoes the  *)
 (* naming conversion through the @PythonName annotations before judging; C05 runs without -nc anyway).          *)
@@ -99,7 +101,11 @@ D1(S) == LET s == S IN s \cup Un(s) \cup Bi(s)
 Base == Leaves \cup LitTerms
 (* Universes are operators with a parameter on purpose: TLC pre-evaluates every zero-arity constant definition of  *)
 (* the root module at start-up, including the ones a configuration does not use.                                  *)
+\* (`Name = None` is no type alias)
+AliasTerms(S) == LET s == { x \in S : x.k # "None" } IN { T1("Alias", x) : x \in s } \cup { T1(c, T1("Alias", x)) : c \in {"list", "Optional", "OrNone"}, x \in s }
+VarTuples(S) == LET s == S IN { T1("VarTuple", x) : x \in s } \cup { T1(c, T1("VarTuple", x)) : c \in {"list", "Optional"}, x \in s }
 QuickTerms(dummy) ==
+  AliasTerms(SmallLeaves \cup Un(TinyLeaves) \cup Bi(TinyLeaves)) \cup VarTuples(SmallLeaves \cup Un(TinyLeaves)) \cup
   D1(Base) \cup Te(SmallLeaves) \cup Ca(SmallLeaves)
   \cup Un(Un(SmallLeaves) \cup Bi(TinyLeaves) \cup Ca(TinyLeaves))                \* depth 2 under unary constructors
   \cup Bi(Un(TinyLeaves) \cup TinyLeaves)                                         \* depth 2 under binary constructors
@@ -140,10 +146,12 @@ Emit == phase = "translated" => PrintT(ToJson(term))
 (* a stub type term (or k = "none" when the position carries no type) and  *)
 (* for pos = "result" a sequence of result types.                          *)
 (***************************************************************************)
+RECURSIVE Unalias(_)
+Unalias(t) == IF t.k = "Alias" THEN Unalias(t.a[1]) ELSE t
 ExpectedResults(t) ==
   IF Canon(t) = { Null } THEN <<>>       \* "-> None" and its equivalent spellings (Optional[None], None | None)
-  ELSE IF t.k = "tuple" THEN [ j \in 1..Len(t.a) |-> Canon(t.a[j]) ]
-  ELSE << Canon(t) >>
+  ELSE IF Unalias(t).k = "tuple" THEN [ j \in 1..Len(Unalias(t).a) |-> Canon(Unalias(t).a[j]) ]      \* the elements of a returned tuple are the results;
+  ELSE << Canon(t) >>                                                                               \* a variadic tuple is one result
 
 Shape(t) == t.k \o (IF \E j \in 1..Len(t.a) : t.a[j].k = "Literal" THEN "+Literal" ELSE "")
                 \o (IF \E j \in 1..Len(t.a) : Canon(t.a[j]) = { Null } THEN "+None" ELSE "")
